@@ -3,10 +3,11 @@
 
   Property theorems only (helper lemmas: IndexLemmas, LevelLemmas, LevelGOLemmas).  The models
   (`Index.mk?`, `Index.locToIloc`, `IndexGO.append`, `Level.fromLabels`, `Level.leafLocToIloc`,
-  `Level.append/extend`) mirror the code; the harness compares them with the real classes on every run.
+  `Level.append/extend`, `Level.levelDropInner/levelDropOuter`) mirror the code; the harness compares them with the real classes on every run.
 -/
 import SFModel.IndexLemmas
 import SFModel.LevelGOLemmas
+import SFModel.LevelDropLemmas
 set_option linter.unusedSectionVars false
 
 namespace SF.C02
@@ -253,5 +254,132 @@ example : (Level.fromLabels ([[1, 1], [1, 2], [2, 1]] : List (List Int))).map Le
 example : ∃ e, Level.fromLabels ([[1, 1], [2, 1], [1, 2]] : List (List Int)) = .error e :=
   ⟨.indexInit, by rfl⟩
 example : (Level.node [5, 6] [.leaf [1, 2] 0, .leaf [1] 2] 0 : Level Int).leafLocToIloc [6, 1] = .ok 2 := by decide
+
+/-! ### `IndexHierarchy.level_drop` (as repaired by commits c60a76d, 8dba1fb)
+
+  `Level.Populated`: every IndexLevel of the tree holds at least one label (true of every non-empty
+  IndexHierarchy; the walks of `level_drop` read `targets[0]`). -/
+
+/-- The trees `from_labels` builds from at least one label are populated (so the hypotheses of the
+    `level_drop` theorems hold for them, with the depth given by `fromLabels_sound`). -/
+theorem fromLabels_populated {ts : List (List α)} {t : Level α} (h : Level.fromLabels ts = .ok t)
+    (hne : ts ≠ []) : t.Populated :=
+  Level.fromLabels_populated h hne
+
+example : ∃ t, Level.fromLabels ([[1, 1, 1], [1, 2, 1], [2, 1, 1]] : List (List Int)) = .ok t ∧
+    (t.levelDropInner 1).map Level.tuples = .ok [[1, 1], [1, 2], [2, 1]] ∧
+    (t.levelDropOuter 1).map Level.tuples = .error .nonUnique ∧
+    (t.levelDropOuter 2).map Level.tuples = .error .nonUnique := ⟨_, rfl, by decide⟩
+
+/-- `level_drop(-k)` (inner levels) on a well-formed tree of depth `d > k`: the answer is a
+    well-formed tree of depth `d - k` (the re-based offsets ARE the running leaf counts; a leaf =
+    the flat Index when `d - k = 1`) whose tuples are exactly the distinct `(d-k)`-prefixes of the
+    original tuples in order of first occurrence. -/
+theorem level_drop_inner_spec {t : Level α} {d k : Nat} (h : Level.WF d t) (hp : t.Populated)
+    (hk0 : 0 < k) (hk : k < d) :
+    ∃ r, t.levelDropInner k = .ok r ∧ Level.WF (d - k) r ∧ r.Populated ∧
+      r.tuples = (t.tuples.map (·.take (d - k))).eraseDups ∧ (r.isLeaf = true ↔ d - k = 1) :=
+  Level.levelDropInner_spec h hp hk0 hk
+
+example : ((Level.node [0, 1] [.node [0, 1] [.leaf [0, 1] 0, .leaf [0, 1] 2] 0, .node [5] [.leaf [7, 8] 0] 4] 0 :
+      Level Int).levelDropInner 1).map Level.tuples = .ok [[0, 0], [0, 1], [1, 5]] := by decide
+example : ((Level.node [0, 1] [.node [0, 1] [.leaf [0, 1] 0, .leaf [0, 1] 2] 0, .node [5] [.leaf [7, 8] 0] 4] 0 :
+      Level Int).levelDropInner 2).map Level.tuples = .ok [[0], [1]] := by decide
+
+/-- so the bijection holds on the answer of `level_drop(-k)`: looking up a prefix gives its
+    position among the distinct prefixes, membership is exact. -/
+theorem level_drop_inner_bijection {t : Level α} {d k : Nat} (h : Level.WF d t) (hp : t.Populated)
+    (hk0 : 0 < k) (hk : k < d) :
+    ∃ r, t.levelDropInner k = .ok r ∧
+      (∀ key i, r.leafLocToIloc key = .ok i ↔ ((t.tuples.map (·.take (d - k))).eraseDups)[i]? = some key) ∧
+      (∀ key, r.containsKey (d - k) key = true ↔ key ∈ (t.tuples.map (·.take (d - k))).eraseDups) ∧
+      r.len = ((t.tuples.map (·.take (d - k))).eraseDups).length := by
+  obtain ⟨r, e, w, _, ht, _⟩ := level_drop_inner_spec h hp hk0 hk
+  obtain ⟨b1, b2, b3⟩ := leaf_bijection w
+  exact ⟨r, e, ht ▸ b1, ht ▸ b2, ht ▸ b3⟩
+
+/-- PINNED-TREE BEHAVIOUR (repaired in /repo commit 8dba1fb): without the re-basing walk the kept
+    targets carried the offsets of the deeper tree — on a from_product-like tree of depth 3 with 2
+    leaves per node the second target of `level_drop(-1)` kept offset 4 (its position is 2), so the
+    label (1, 0) resolved to position 4 of an index of length 4. -/
+theorem levelDropInnerPinned_counterexample :
+    ((Level.node [0, 1] [.node [0, 1] [.leaf [0, 1] 0, .leaf [0, 1] 2] 0,
+        .node [0, 1] [.leaf [0, 1] 0, .leaf [0, 1] 2] 4] 0 : Level Int).levelDropInnerPinned 1).map
+      (fun r => (r.children.map Level.offset, r.leafLocToIloc [1, 0], r.len)) = .ok ([0, 4], .ok 4, 4) := by decide
+
+/-- The repaired drop re-bases that offset. -/
+theorem level_drop_inner_repaired_example :
+    ((Level.node [0, 1] [.node [0, 1] [.leaf [0, 1] 0, .leaf [0, 1] 2] 0,
+        .node [0, 1] [.leaf [0, 1] 0, .leaf [0, 1] 2] 4] 0 : Level Int).levelDropInner 1).map
+      (fun r => (r.children.map Level.offset, r.leafLocToIloc [1, 0], r.len)) = .ok ([0, 2], .ok 2, 4) := by decide
+
+/-- `level_drop(k)` (outer levels) on a well-formed tree of depth `d > k`: an answer is a
+    well-formed tree of depth `d - k` holding the `k`-shorter suffixes of the original tuples in
+    order; there is an answer exactly when, at every depth `1 … k`, the labels of all nodes of
+    that depth together are pairwise distinct (`Level.OuterDroppable`: the condition the
+    constructor of each new outer Index checks), otherwise it is the non-unique initialisation
+    error; in particular suffixes that repeat or are not a tree in the given order are refused. -/
+theorem level_drop_outer_spec {t : Level α} {d k : Nat} (h : Level.WF d t) (hp : t.Populated)
+    (hk0 : 0 < k) (hk : k < d) :
+    (∀ r, t.levelDropOuter k = .ok r →
+        Level.WF (d - k) r ∧ r.Populated ∧ r.tuples = t.tuples.map (·.drop k)) ∧
+    ((∃ r, t.levelDropOuter k = .ok r) ↔ Level.OuterDroppable k t) ∧
+    (¬ Level.OuterDroppable k t → t.levelDropOuter k = .error .nonUnique) ∧
+    (¬ (t.tuples.map (·.drop k)).Nodup ∨ ¬ Level.TreeOrdered (t.tuples.map (·.drop k)) →
+        t.levelDropOuter k = .error .nonUnique) := by
+  obtain ⟨s1, s2⟩ := Level.levelDropOuter_spec h hp hk0 hk
+  have hsound : ∀ r, t.levelDropOuter k = .ok r →
+      Level.WF (d - k) r ∧ r.Populated ∧ r.tuples = t.tuples.map (·.drop k) := by
+    intro r hr
+    by_cases hd : Level.OuterDroppable k t
+    · obtain ⟨r', e, w, p, ht⟩ := s1 hd
+      rw [e] at hr
+      cases hr
+      exact ⟨w, p, ht⟩
+    · rw [s2 hd] at hr; cases hr
+  have hiff : (∃ r, t.levelDropOuter k = .ok r) ↔ Level.OuterDroppable k t := by
+    constructor
+    · rintro ⟨r, hr⟩
+      by_cases hd : Level.OuterDroppable k t
+      · exact hd
+      · rw [s2 hd] at hr; cases hr
+    · intro hd
+      obtain ⟨r, e, _⟩ := s1 hd
+      exact ⟨r, e⟩
+  refine ⟨hsound, hiff, s2, ?_⟩
+  intro hbad
+  apply s2
+  intro hd
+  obtain ⟨r, e, w, _, ht⟩ := s1 hd
+  rcases hbad with hb | hb
+  · exact hb (ht ▸ Level.tuples_nodup r _ w)
+  · exact hb (ht ▸ Level.tuples_treeOrdered r _ w)
+
+example : ((Level.node [0, 1] [.node [5, 6] [.leaf [1, 2] 0, .leaf [1] 2] 0, .node [7] [.leaf [1, 2] 0] 3] 0 :
+      Level Int).levelDropOuter 1).map Level.tuples = .ok [[5, 1], [5, 2], [6, 1], [7, 1], [7, 2]] := by decide
+example : ((Level.node [0, 1] [.node [5, 6] [.leaf [1, 2] 0, .leaf [3] 2] 0, .node [7] [.leaf [4, 5] 0] 3] 0 :
+      Level Int).levelDropOuter 2).map Level.tuples = .ok [[1], [2], [3], [4], [5]] := by decide
+
+/-- The refusal is by label, not by suffix: the suffixes (5, 1), (5, 2) are distinct and a tree in
+    the given order, but the label 5 is held under two dropped parents. -/
+theorem level_drop_outer_shared_label_example :
+    (Level.node [0, 1] [.node [5] [.leaf [1] 0] 0, .node [5] [.leaf [2] 0] 1] 0 : Level Int).tuples.map (·.drop 1)
+      = [[5, 1], [5, 2]] ∧
+    ((Level.node [0, 1] [.node [5] [.leaf [1] 0] 0, .node [5] [.leaf [2] 0] 1] 0 : Level Int).levelDropOuter 1).map
+      Level.tuples = .error .nonUnique := by decide
+
+/-- PINNED-TREE BEHAVIOUR (finding F45, repaired in /repo commit c60a76d): the promoted targets kept
+    offsets relative to the dropped parent — after `level_drop(1)` on depth 3 the target of the
+    second sub-tree kept offset 0 (its position is 3), so the label (7, 1) resolved to position 0. -/
+theorem levelDropOuterPinned_counterexample :
+    ((Level.node [0, 1] [.node [5, 6] [.leaf [1, 2] 0, .leaf [1] 2] 0, .node [7] [.leaf [1, 2] 0] 3] 0 :
+        Level Int).levelDropOuterPinned 1).map
+      (fun r => (r.children.map Level.offset, r.leafLocToIloc [7, 1])) = .ok ([0, 2, 0], .ok 0) := by decide
+
+/-- The repaired drop adds the offset of the dropped parent. -/
+theorem level_drop_outer_repaired_example :
+    ((Level.node [0, 1] [.node [5, 6] [.leaf [1, 2] 0, .leaf [1] 2] 0, .node [7] [.leaf [1, 2] 0] 3] 0 :
+        Level Int).levelDropOuter 1).map
+      (fun r => (r.children.map Level.offset, r.leafLocToIloc [7, 1])) = .ok ([0, 2, 3], .ok 3) := by decide
 
 end SF.C02
